@@ -152,6 +152,7 @@ func c16Case(t *testing.T, p c16Params, names []string) (res c16Result) {
 		before := m.sys.DB.Dump()
 		var resp *model.PushPullMessage
 		var err error
+		t0 := time.Now()
 		if !callWithDeadline(func() {
 			ctx, cancel := gocontext.WithCancel(gocontext.Background())
 			defer cancel()
@@ -162,8 +163,15 @@ func c16Case(t *testing.T, p c16Params, names []string) (res c16Result) {
 		}) {
 			exitWith(viol("C16:request-never-answered:mutation:"+res.Name, "mutated request %v was never answered: %s", names, mut.ToString(false)))
 		}
+		took := time.Since(t0) // virtual time: nothing else runs, so only timers of the request itself can pass it
 		m.drain()
 		after := m.sys.DB.Dump()
+		if took >= 3*time.Second {
+			// the only multi-second timer on the request path is the lock lease: the request waited for a
+			// lock that nobody but itself can have held
+			res.Viol = viol("C16:answered-only-after-a-lock-lease:"+res.Name, "the lone request %v was answered after %v of virtual time (lock lease is 5s): %s", names, took, mut.ToString(false))
+			return
+		}
 		refused := err != nil
 		hasErrPack := false
 		if resp != nil {
